@@ -903,17 +903,21 @@ func (db *DB) DeleteObjects(from *iterator) (err error) {
 func (db *DB) deleteObjects(from *iterator) (err error) {
 	var o Object
 
-	defer db.commit(from.object())
-
 	for o, err = from.next(); err == nil || err != ErrEOI; o, err = from.next() {
 		if err = db.delete(o); err != nil {
-			return
+			break
 		}
 	}
 
 	// end of iterator is not considered as an error to report
 	if err == ErrEOI {
 		err = nil
+	}
+
+	// changes are committed whatever happened, a failure to
+	// commit is reported unless an error is already returned
+	if e := db.commit(from.object()); e != nil && err == nil {
+		err = e
 	}
 
 	return
